@@ -126,8 +126,11 @@ def cbmc_pipeline(ctx, job, cfile, vac):
     gi = "goto-instrument --dfcc %s" % job.harness
     if job.enforce:
         gi += " --enforce-contract %s" % job.enforce
+    ctext = X.strip_comments(open(cfile).read())
     for r in job.replace:
-        gi += " --replace-call-with-contract %s" % r
+        # goto-instrument aborts on a callee that is declared but never called: only name the ones this text calls
+        if len(re.findall(r"\b%s\s*\(" % re.escape(r), ctext)) >= 2:
+            gi += " --replace-call-with-contract %s" % r
     if job.loop_contracts:
         gi += " --apply-loop-contracts"
     if job.enforce or job.replace or job.loop_contracts:
